@@ -27,7 +27,9 @@ RULE = ("scenarios: <=3 entities x <=2 attributes, some existing before the trig
         "names d.e / d.e.attr / d.e.*, mixtures, .old and .old.attr names, watch= (superset / subset / with any-change "
         "names only), kwargs= (also overriding var_name/value); expressions from a grammar (== != is-None bool() int()> "
         "and or not, over values, attributes, .old); histories of <=12 create / change value / change attribute / "
-        "re-set same / delete operations in bursts of 1-6; each scenario under both subsystems.  Non-trivial = at "
+        "re-set same / delete operations in bursts of 1-6; each scenario under both subsystems; plus runs delayed by "
+        "state_hold in {0, 0.5, 2 s} with kwargs= of plain names and of names colliding with var_name / value / "
+        "old_value / trigger_type (the keyword arguments of the delayed run are judged).  Non-trivial = at "
         "least one event delivered to some decorator; distinct by payload.")
 ASSUMPTIONS = [
     "Home Assistant delivers state_changed to pyscript's listener synchronously, in firing order, and fires no event "
@@ -363,6 +365,95 @@ WITNESSES = [
 ]
 
 
+# ---- runs delayed by state_hold: which keyword arguments do they get?  (timing itself is C05's subject)
+HELD_HOLDS = [0, 0.5, 2]
+HELD_KWARGS = [
+    {"extra": "7"},                                        # a plain additional keyword
+    {"var_name": "ovr"},                                   # collides with the trigger's own argument
+    {"value": "v", "old_value": "o", "dec": "1"},          # two collisions and a plain name
+    {"trigger_type": "tt", "extra": "1"},
+    {"extra": "7", "var_name": "ovr", "value": "v"},
+]
+
+
+def held_values(rng):
+    """values pyscript.x takes, 5 s apart (longer than any hold): the expression `pyscript.x == '1'` becomes true at every
+    '1'; attributes vary so that value / old_value carry attributes too"""
+    out, cur = [], None
+    for _ in range(rng.randrange(2, 6)):
+        v = rng.choice([x for x in ["1", "1", "0", "2"] if x != cur])
+        cur = v
+        attrs = {"a1": rng.choice(AVALS)} if rng.random() < 0.5 else {}
+        out.append([v, attrs])
+    if all(v != "1" for v, _ in out):
+        out.append(["1", {}])
+    return out
+
+
+def held_events(p):
+    """(ctx, new, old) of the operations that make the expression true = the runs expected after the hold"""
+    evs, old = [], None
+    for i, (v, attrs) in enumerate(p["vals"]):
+        new = [v, attrs]
+        if v == "1":
+            evs.append([i + 1, new, old])
+        old = new
+    return evs
+
+
+def held_src(p):
+    return (f"@state_trigger(\"pyscript.x == '1'\", state_hold={p['hold']!r}, kwargs={p['kwargs']!r})\n"
+            "def f0(**kw):\n"
+            "    rec('run', 0, kw)\n")
+
+
+def make_held_case(p):
+    p = {k: v for k, v in p.items() if not k.startswith("_")}
+    line = "C04 " + sx(["held", "legacy" if p["legacy"] else "new", [[k, str(v)] for k, v in p["kwargs"].items()],
+                        [["pyscript.x", sval_sx(new), sval_sx(old), ctx] for ctx, new, old in held_events(p)]])
+    tags = ["legacy" if p["legacy"] else "new", "held", f"held:hold={p['hold']}"]
+    if any(k in ("var_name", "value", "old_value", "trigger_type") for k in p["kwargs"]):
+        tags.append("held:kwargs-override")
+    return Case(p, line, tags=tags)
+
+
+def held_oracle(p):
+    runs = []
+    for ctx, new, old in held_events(p):
+        base = [["trigger_type", "state"], ["var_name", "pyscript.x"], ["value", o_show(SV(new[0], new[1]))],
+                ["old_value", "None" if old is None else o_show(SV(old[0], old[1]))]]
+        for k, val in p["kwargs"].items():
+            for b in base:
+                if b[0] == k:
+                    b[1] = str(val)
+                    break
+            else:
+                base.append([k, str(val)])
+        runs.append([ctx] + base)
+    return {"runs": runs}
+
+
+def run_held(p):
+    from ha_env import run_ha
+    from homeassistant.core import Context
+
+    async def body(env):
+        env.write("t.py", held_src(p))
+        await env.reload()
+        t0 = env.now()
+        for i, (v, attrs) in enumerate(p["vals"]):
+            await env.settle_until(t0 + 1 + 5 * i)
+            env.hass.states.async_set("pyscript.x", v, dict(attrs), context=Context(id=f"c{i + 1}"))
+            await env.settle(0)
+        await env.settle_until(t0 + 1 + 5 * len(p["vals"]) + 5)
+        return [canon_kw(r[3]) for r in env.records if r[1] == "run"]
+
+    try:
+        return {"runs": run_ha({}, p["legacy"], body)}
+    except Exception as e:  # pylint: disable=broad-except
+        return {"crash": f"{type(e).__name__}: {e}"[:200]}
+
+
 def gen_cases(rng, tier, search):
     n = 220 if tier == "quick" else 2500
     if search:
@@ -371,6 +462,12 @@ def gen_cases(rng, tier, search):
     for scn in WITNESSES:
         for legacy in (True, False):
             cases.append(make_case(json.loads(json.dumps(scn)), legacy))
+    # kwargs of runs delayed by state_hold: every hold value x every kwargs shape, both subsystems
+    for hold in HELD_HOLDS:
+        for kw in HELD_KWARGS:
+            vals = held_values(rng)
+            for legacy in (True, False):
+                cases.append(make_held_case({"kind": "held", "legacy": legacy, "hold": hold, "kwargs": kw, "vals": vals}))
     for _ in range(n):
         scn = rnd_scenario(rng, tier)
         for legacy in (True, False):
@@ -505,6 +602,8 @@ def canon_kw(kw):
 
 def run_one(payload):
     """returns the impl observation as a dict (or {'crash': ...})"""
+    if payload.get("kind") == "held":
+        return run_held(payload)
     from ha_env import run_ha
     from homeassistant.core import Context
     scn, legacy = payload["scn"], payload["legacy"]
@@ -602,6 +701,13 @@ def run_impl(cases):
     warm()
     outs = common.pmap(run_one, [c.payload for c in cases], workers=8)
     for c, o in zip(cases, outs):
+        if c.payload.get("kind") == "held":
+            orc = held_oracle(c.payload)
+            c.payload["_impl"] = o
+            c.payload["_oracle"] = orc
+            c.impl = json.dumps({"obs": o, "oracle": orc}, sort_keys=True)
+            c.nontrivial = True
+            continue
         scn = c.payload["scn"]
         orc = oracle(scn)
         c.payload["_impl"] = o
@@ -759,6 +865,11 @@ def split(outline):
         return outline, json.dumps({"err": outline})
     p = parse_sx("(" + outline[3:] + ")")
     model, spec, diag = p[0][1], p[1][1], p[2][1]
+    if model and model[0] == "held":
+        def hruns(x):
+            return [[int(r[0])] + [[kv[0], kv[1]] for kv in r[1:]] for r in x[1:]]
+        return (json.dumps({"held": True, "m": hruns(model), "s": hruns(spec)}),
+                json.dumps({"spec": {"runs": hruns(spec)}, "diag": []}))
     m = {"runs": _runs(model[1]), "evals": [int(v) for v in model[3]], "pending": [int(v) for v in model[5] if int(v)]}
     s = {"runs": _runs(spec[1]), "evals": [int(v) for v in spec[3]]}
     d = [[int(t[0]), int(t[1]), t[2]] for t in diag]
@@ -773,6 +884,9 @@ def _finish_model(c):
     except (TypeError, ValueError):
         return
     if "m" not in ms:
+        return
+    if ms.get("held"):
+        c.model = json.dumps({"obs": {"runs": ms["m"]}, "oracle": {"runs": ms["s"]}}, sort_keys=True)
         return
     scn = c.payload["scn"]
     decs = decs_of(scn)
@@ -811,6 +925,11 @@ def _diff(c):
     obs, orc = c.payload["_impl"], c.payload["_oracle"]
     if "crash" in obs:
         return [("unexplained", "harness-crash " + obs["crash"])]
+    if c.payload.get("kind") == "held":
+        if obs["runs"] != orc["runs"]:
+            return [("unexplained", f"held run kwargs: got {json.dumps(obs['runs'])[:300]} expected "
+                                    f"{json.dumps(orc['runs'])[:300]}")]
+        return []
     scn = c.payload["scn"]
     decs = decs_of(scn)
     try:
@@ -884,6 +1003,8 @@ def classify(c, reason):
 
 def replay_cases(obj):
     p = obj["case"]
+    if p.get("kind") == "held":
+        return [make_held_case(p)]
     return [make_case(p["scn"], p["legacy"])]
 
 
@@ -898,6 +1019,8 @@ def _rerun(scn, legacy):
 
 def shrink(c, reason):
     """greedy: drop bursts, operations, functions, decorators while the same signature is reported"""
+    if c.payload.get("kind") == "held":
+        return c
     sig = classify(c, reason)
     scn, legacy = json.loads(json.dumps(c.payload["scn"])), c.payload["legacy"]
     best = c
@@ -944,11 +1067,15 @@ def shrink(c, reason):
 
 
 def extra_coverage(cases):
+    held = [c for c in cases if c.payload.get("kind") == "held"]
+    cases = [c for c in cases if c.payload.get("kind") != "held"]
     n_runs = sum(len(f) - 1 for c in cases for f in c.payload.get("_oracle", {}).get("runs", []))
     n_evals = sum(sum(c.payload.get("_oracle", {}).get("evals", [])) for c in cases)
     n_deliv = sum(sum(c.payload.get("_oracle", {}).get("delivered", [])) for c in cases)
     n_ops = sum(len(b) for c in cases for b in c.payload["scn"]["hist"])
-    return {"operations_issued": n_ops, "events_delivered_to_decorators": n_deliv,
+    return {"held_kwargs_cases": len(held),
+            "held_delayed_runs_expected": sum(len(c.payload.get("_oracle", {}).get("runs", [])) for c in held),
+            "operations_issued": n_ops, "events_delivered_to_decorators": n_deliv,
             "expected_runs": n_runs, "expected_expression_evaluations": n_evals,
             "oracle": "independent Python oracle (CPython eval of the expression source on the spec environment); "
                       "Lean Spec.funcRuns/stEvals compared with it on every case"}
